@@ -127,6 +127,13 @@ fn check(c: &Case, st: &mut Stats) -> Result<(), String> {
         }
         seq.extend(rest);
     }
+    let mut is_source = vec![false; pool.packets.len()];
+    for i in pool.source_idx.iter().flatten() {
+        is_source[*i] = true;
+    }
+    let total_source = pool.source_idx.iter().map(|v| v.len()).sum::<usize>();
+    let mut src_delivered: HashSet<usize> = HashSet::new();
+    let mut src_delivered_n = 0usize;
     let mut got: Vec<HashSet<u32>> = vec![HashSet::new(); z];
     let mut src_got: Vec<u32> = vec![0; z];
     let mut block_done: Vec<bool> = vec![false; z];
@@ -188,7 +195,13 @@ fn check(c: &Case, st: &mut Stats) -> Result<(), String> {
                 }
             }
         }
-        let all_source = (0..z).all(|b| src_got[b] == pool.ks[b]);
+        // "all source packets of every block delivered" is decided by WHICH of the encoder's
+        // source packets were handed over (their position in the pool), not by the IDs they
+        // carry: an encoder that labels a block's packets wrongly must not disarm the oracle
+        if is_source[pi] && src_delivered.insert(pi) {
+            src_delivered_n += 1;
+        }
+        let all_source = src_delivered_n == total_source;
         // the streaming interface is an answer of the decoder as well
         dec_stream.add_new_packet(pkt.clone());
         match dec_stream.get_result() {
